@@ -3,6 +3,10 @@
 T: coq/gen/GenerationGen.v regenerated from vm/src/gc.rs (`impl Generation`, the skip test of
    `Gc::mark`, `Gc::new_child_gc`) and vm/src/thread.rs (`trace_fields_except_stack`).
 Proofs: coq/theories/Props/C05.v over Heap/MarkSweep.v (mark skips by the GENERATED `mark_skips`).
+C (collect replay): around real `Thread::collect()` calls in a tree of threads the heap reachable from
+   every host handle is dumped (hook verif::graph: owner heap, generation, fields), roots are taken from
+   the real tracer (verif_walk) plus the handles still held, the extracted `collect` (coq/extract/c05)
+   is run on the dump and its freed set compared with the objects the implementation freed.
 C: generated allocation-heavy programs run under every collection stride (hook H1) with quarantine
    (hook H2): outcome = what the generator knows and identical for all strides, no freed object
    reached (events, renderings), host handles unchanged, allocated_memory back at the baseline.
@@ -61,7 +65,100 @@ def tie(ctx, tier_override=None, tag="tie"):
                     viol.append(json.loads(line))
                 except Exception:
                     pass
+    ctx.replay_result = collect_replay(ctx, out_dir, viol)
     return True, n, diffs, viol
+
+
+def _freed(line):
+    if not line.startswith("ok freed="):
+        return None
+    body = line[len("ok freed="):].split(" ")[0]
+    return set(int(x) for x in body.split(",") if x)
+
+
+def collect_replay(ctx, out_dir, viol):
+    """Run the extracted `collect` on the dumped heaps and compare freed sets.  Returns
+    (ran, cases, objects, freed_by_both, disagreements)."""
+    mi = os.path.join(out_dir, "creplay_model_in.txt")
+    if not os.path.exists(mi):
+        return (False, 0, 0, 0, 0)
+    model = ctx.build_model("c05")
+    if model is None:
+        return (False, 0, 0, 0, 0)
+    mo = os.path.join(out_dir, "creplay_model_out.txt")
+    if not ctx.run_model(model, mi, mo):
+        return (False, 0, 0, 0, 0)
+    model_out = common.read_lines(mo)
+    impl_out = common.read_lines(os.path.join(out_dir, "creplay_impl_out.txt"))
+    cases = common.read_lines(os.path.join(out_dir, "creplay_cases.txt"))
+    ncases = nobj = nfreed = bad = 0
+    seen = set(v["key"] for v in viol)
+
+    def add(key, what, case, exp, obs):
+        if key not in seen:
+            seen.add(key)
+            viol.append({"key": key, "what": what, "case": case, "expected": exp, "observed": obs})
+
+    for i in range(max(len(model_out), len(impl_out))):
+        m = model_out[i] if i < len(model_out) else "<missing>"
+        o = impl_out[i] if i < len(impl_out) else "<missing>"
+        try:
+            c = json.loads(cases[i]) if i < len(cases) else {}
+        except Exception:
+            c = {}
+        if m == "skip" and o == "skip":
+            continue
+        if o.startswith("held-freed "):
+            bad += 1
+            parent = o.split(" ")[1]
+            add("c05:replay-freed-reachable:via-%s" % parent,
+                "a value the host still holds reaches a FREED object after a collection (%s)" % o[len("held-freed "):],
+                {"replay_case": i}, "nothing reachable from a held handle is freed", o)
+            continue
+        fm, fo = _freed(m), _freed(o)
+        if fm is None or fo is None:
+            bad += 1
+            add("c05:replay-broken:%s" % (m.split(" ")[0] if fm is None else o.split(" ")[0]),
+                "collect replay case could not be evaluated", {"replay_case": i, "setup": c.get("setup")}, m[:200], o[:200])
+            continue
+        ncases += 1
+        kinds = c.get("kinds", [])
+        nobj += len(kinds)
+        nfreed += len(fm & fo)
+        small = {k: c.get(k) for k in ("replay_case", "setup", "dropped", "collect")}
+        for x in sorted(fo - fm):
+            bad += 1
+            k = kinds[x] if x < len(kinds) else "?"
+            path = (c.get("paths") or [None] * (x + 1))[x]
+            add("c05:replay-freed-reachable:%s" % k,
+                "a collection by thread %s freed a `%s` object that is reachable (%s): the model's collect, which is "
+                "proved to keep everything reachable, keeps it" % (c.get("collect"), k, path),
+                dict(small, object=x, path=path), "kept", "freed")
+        for x in sorted(fm - fo):
+            bad += 1
+            k = kinds[x] if x < len(kinds) else "?"
+            add("c05:garbage-kept:%s" % k,
+                "a collection by thread %s did not free an unreachable `%s` object of a swept heap (heap %s) that the "
+                "model's collect frees" % (c.get("collect"), k, (c.get("owners") or [None] * (x + 1))[x]),
+                dict(small, object=x), "freed", "kept")
+        # accounting without sizes: allocated_memory of a heap goes down exactly when the model frees one
+        # of its objects (the heaps were collected just before the dump, so there is no other garbage)
+        if "shrunk" in c:
+            owners = c.get("owners", [])
+            should = sorted(set(owners[x] for x in fm if x < len(owners)))
+            if sorted(c["shrunk"]) != should or c.get("grew"):
+                bad += 1
+                add("c05:replay-accounting",
+                    "allocated_memory changed on other heaps than those the model frees objects of",
+                    dict(small, allocated_before=c.get("allocated_before"), allocated_after=c.get("allocated_after")),
+                    "shrunk heaps %s, none grown" % should, "shrunk %s grown %s" % (c["shrunk"], c.get("grew")))
+        if c.get("events"):
+            add("c05:replay-dangling-reached", "the replayed collection reached a freed object", small, "no event", "; ".join(c["events"])[:300])
+    ctx.coverage["collect_replay"] = {"collections": ncases, "objects_dumped": nobj, "objects_freed_by_both": nfreed,
+                                      "disagreements": bad, "accounting": "sizes are not reported by the graph hook: only WHICH heaps' allocated_memory shrinks is compared with the model"}
+    ctx.coverage["evaluations"] = ctx.coverage.get("evaluations", 0) + ncases
+    ctx.coverage["traces_validated_against_impl"] = ctx.coverage.get("traces_validated_against_impl", 0) + ncases
+    return (True, ncases, nobj, nfreed, bad)
 
 
 def run(ctx):
@@ -70,6 +167,12 @@ def run(ctx):
     ran, n, diffs, viol = tie(ctx)
     ctx.obligations.append(common.Obligation("correspondence:gc-transparency", "correspondence", ran and not diffs,
                                              "%d (program, stride) runs, %d with an outcome other than the expected one" % (n, len(diffs))))
+    rr = getattr(ctx, "replay_result", (False, 0, 0, 0, 0))
+    ctx.obligations.append(common.Obligation("correspondence:collect-replay", "correspondence", rr[0] and rr[4] == 0 and rr[1] > 0,
+                                             "%d real collections replayed through the extracted collect: %d dumped objects, %d freed by both, %d disagreements"
+                                             % (rr[1], rr[2], rr[3], rr[4])))
+    ctx.trusted.append("coq/extract/c05/driver.ml (parsing/printing); the root census of the replay comes from the real tracer (verif_walk) plus the handles the host still holds")
+    ctx.assumptions.append("collect replay: allocated_memory is not compared with the model's survivor sizes because the graph hook does not report object sizes (accounting is checked by the baseline observation instead)")
     ctx.trusted.append("translator harness/src/tr/generation.rs (syn): impl Generation, the skip test of Gc::mark, new_child_gc")
     ctx.trusted.append("hooks: verif::set_stride (H1), quarantine / take_events / is_freed (H2), verif::graph (H3)")
     ctx.trusted.append("harness/src/bin/c05.rs: program generator with closed-form expected results, graph renderer, child-process runner")
